@@ -187,14 +187,12 @@ func runPatchMutant(self string, m mutant, r mutantResult, repo, known string) m
 	defer os.RemoveAll(td)
 	var ov []string
 	for _, f := range files {
-		src, err := os.ReadFile(filepath.Join(repo, f))
-		if err != nil {
-			r.Status, r.Detail = "skipped", "file missing: "+f
-			return r
-		}
 		dst := filepath.Join(td, "src", f)
 		_ = os.MkdirAll(filepath.Dir(dst), 0o755)
-		_ = os.WriteFile(dst, src, 0o644)
+		// a file the patch creates does not exist yet: patch(1) writes it
+		if src, err := os.ReadFile(filepath.Join(repo, f)); err == nil {
+			_ = os.WriteFile(dst, src, 0o644)
+		}
 		ov = append(ov, f+"="+dst)
 	}
 	ap := exec.Command("patch", "-p1", "-s", "--no-backup-if-mismatch", "-d", filepath.Join(td, "src"), "-i", pf)
